@@ -37,7 +37,7 @@ COMPONENTS = {"real": ["smpl_extract.formats.wav, generalized/wav, transcoder, s
 ASSUMPTIONS = ["the statement is about *reported* files: a stub left behind by an export that aborted is counted as a probe, not a violation",
                "an export that raises is allowed (\"for which export succeeds\"); files reported before the exception are still checked"]
 EXPECTED_PROBES = ["files_checked", "smpl_chunk", "smpl_with_loops", "stereo", "mono", "zero_frames", "faulted_run", "create_failed", "unreported_stub_left",
-                   "export_raised", "akai", "roland", "cdda", "note_out_of_range_export_failed"]
+                   "export_raised", "akai", "roland", "cdda", "note_out_of_range_export_failed", "destination_reused"]
 SHRINK = {"max_attempts": 200, "max_seconds": 60.0, "simple_values": {"policy": ["contiguous"], "block": [4096]}}
 
 
@@ -76,6 +76,7 @@ def gen(rng: random.Random, tier: str, index: int) -> dict:
     else:
         sc = namesim.gen(rng, cdda_ok=True, pairs=True)
     sc["faults"] = []
+    sc["reuse_dest"] = rng.random() < 0.4
     if rng.random() < 0.45:
         for _ in range(rng.randint(1, 3)):
             k = weighted(rng, [("cut", 3), ("rot", 4), ("create_fail", 2)])
@@ -128,6 +129,21 @@ def run(sc: dict) -> RunResult:
         if image is None:
             er = tool.ExportResult(exc=r0.exc)
         else:
+            if sc.get("reuse_dest") and faulted:
+                # the destination already holds a complete export of the undamaged image (a user re-running the tool)
+                sf_clean = SimFile(img)
+                if fmt == "cdda":
+                    vfs2 = VirtualFS({"/vfs/d.cue": C.cue_text(m).encode("ascii", "replace"), "/vfs/" + m["bin_name"]: sf_clean})
+                    with vfs2.installed():
+                        image0, _ = tool.open_image("/vfs/d.cue")
+                else:
+                    image0, _ = tool.open_image(sf_clean)
+                if image0 is not None:
+                    saved, sb.fail_create_at = sb.fail_create_at, None
+                    tool.run_export(image0, sb)
+                    sb.fail_create_at = saved
+                    sb._n_create = 0
+                    res.probes["destination_reused"] += 1
             er = tool.run_export(image, sb)
         if sb.create_failed:
             res.probes["create_failed"] += 1
